@@ -7,6 +7,6 @@ for k in "$@"; do
     [ -f $d/patch.diff ] || { echo "$k change$n: no patch"; continue; }
     needs=$(grep -m1 '^Needs:' $d/notes.txt | cut -c1-300)
     echo "== r6-$k-change$n"
-    SEED_CHECK_REPO=/tmp/mine2/repo /venv/bin/python /verif/tools/confirm_seeded.py /tmp/r6/$k/repo $d r6-$k-change$n $P "$needs" 2>&1 | grep -v conda
+    SEED_CHECK_REPO=/tmp/mine5/repo /venv/bin/python /verif/tools/confirm_seeded.py /tmp/r6/$k/repo $d r6-$k-change$n $P "$needs" 2>&1 | grep -v conda
   done
 done
